@@ -453,7 +453,7 @@ Definition b_update (st : bstate) (k v : bytes) (exp : N) : bstate * bwrite :=
 Definition b_get_resp (st : bstate) (k : bytes) (rev : N) : N * option (bytes * bytes * N) :=
   match b_get (b_kv st) k rev with
   | GNotFound => (b_rev st, None)
-  | GFound v r => (N.max (b_rev st) r, match v with [] => None | _ => Some (k, v, r) end)
+  | GFound v r => (N.max (b_rev st) r, Some (k, v, r))      (* whatever the value is, also an empty one *)
   end.
 
 (* scanner worker at a read revision: per key the newest object record <= rev, unless reserved value *)
